@@ -2,32 +2,24 @@
   Vacuum — `Memvid::vacuum` (src/memvid/mutation.rs) and the doctor's vacuum phase as VARIANTS over the
   shared Core model (property C42).
 
-  The shared model `MvModel/Core.lean` (owned by the Core engineer) has `Mem.vacuum` for the code as it
-  was when the family was built.  Property C42 found three defects in that function and proposes a repair
-  (`/verif/fixes/C42.diff`); this file states the function with the two repaired statements as switches,
-  built from the SAME building blocks of the Core model (`commit`, `compact`, `compactFrames`,
-  `rebuildIndexes`, `persistToc`, `openFrom`, `doctorStage2`, …):
+  Property C42 found three defects in `vacuum`; the repair (/verif/fixes/C42.diff) is in /repo as 0e33b6e and the
+  shared model `MvModel/Core.lean` mirrors the repaired function.  This file states the function with the three
+  repaired statements as switches, built from the SAME building blocks of the Core model:
 
     setsPayloadEnd   after the compaction loop:  `self.cached_payload_end = cursor;`
                      (without it `rebuild_indexes` starts the index region at the stale payload end; when two
                      active frames shared one stored range the rewritten payloads are LONGER than the old
                      region and the time index is written over the last payload)
     persistsSketch   after `rebuild_indexes`:  `if !sketch_track.is_empty() { persist_sketch_track; rewrite_toc_footer }`
-                     (as commit does; without it the rebuilt indexes may cover the bytes the sketch manifest points
-                     to — they do when the payload region grew — and the file no longer opens)
+                     (without it the rebuilt indexes may cover the bytes the sketch manifest points to)
     checkpoints      after `rebuild_indexes`:  `self.wal.record_checkpoint(&mut self.header)?; persist_header`
-                     (without it the Lex record appended by the rebuild's Tantivy flush stays pending:
-                     `Memvid::verify` reports `WalPendingRecords` = Failed and the doctor's planner refuses)
+                     (without it the Lex record of the rebuild's Tantivy flush stays pending: `verify` = Failed)
 
-  `codeVacuum` = the variant the translator `tools/gen/C42.py` reads off /repo's `fn vacuum`; the driver
-  `MvDrv/C42.lean` runs `stepV codeVacuum`.  With all switches off `vacuumV` is literally the Core model's
-  `Mem.vacuum`.
-
-    Mem.compactFramesV   mutation.rs vacuum (compaction loop + `data_end` / `cached_payload_end` + Tantivy reset)
-    Mem.walCheckpoint    io/wal.rs record_checkpoint + persist_header
-    Mem.vacuumV          mutation.rs vacuum
-    Mem.doctorV          doctor.rs Memvid::doctor (vacuum phase = `mem.vacuum()`)
-    stepV / runV / traceV  Core `step` / `run` / `trace` with the two operations replaced
+  With all switches ON (`VacVariant.repaired`) `vacuumV` / `stepV` / `runV` ARE Core's `vacuum` / `step` / `run`
+  (MvProps/C42Lemmas.lean: `vacuumV_repaired`, `stepV_repaired`, `runV_repaired`, by `rfl`); the property theorems
+  are stated over Core's functions.  The pre-repair variant is kept for the counterexample theorems only.
+  `codeVacuum` = the variant the translator `tools/gen/C42.py` reads off /repo's `fn vacuum`
+  (`C42_code_is_repaired : codeVacuum = .repaired` breaks the build if the repair is ever reverted).
 -/
 import MvModel.Core
 import MvModel.Gen.C42
@@ -39,27 +31,24 @@ structure VacVariant where
   checkpoints : Bool
 deriving DecidableEq, Repr, Inhabited
 
-/-- the code with `/verif/fixes/C42.diff` applied -/
+/-- the code with `/verif/fixes/C42.diff` applied (= /repo since 0e33b6e = the Core model) -/
 def VacVariant.repaired : VacVariant := ⟨true, true, true⟩
-/-- the code as the Core model mirrors it -/
+/-- the code before 0e33b6e (counterexample theorems only) -/
 def VacVariant.unrepaired : VacVariant := ⟨false, false, false⟩
 /-- what /repo's `fn vacuum` looks like right now (generated) -/
 def codeVacuum : VacVariant := ⟨Mv.Gen.C42.VACUUM_SETS_PAYLOAD_END, Mv.Gen.C42.VACUUM_PERSISTS_SKETCH, Mv.Gen.C42.VACUUM_CHECKPOINTS_WAL⟩
 
-/-- compaction step: payload pointers rewritten, `data_end = cursor`, Tantivy state cleared — and, in the
-    repaired code, `cached_payload_end = cursor` -/
+/-- compaction step: payload pointers rewritten, `data_end = cursor`, Tantivy state cleared, and
+    `cached_payload_end = cursor` (Core's `compactFrames`); the pre-repair code left the payload end where it was -/
 def Mem.compactFramesV (v : VacVariant) (m1 : Mem) : Mem :=
-  if v.setsPayloadEnd then { m1.compactFrames with payloadEnd := (compact m1.frames 0).2 } else m1.compactFrames
-
-/-- `wal.record_checkpoint(&mut header)` + `persist_header`: the pending records are gone -/
-def Mem.walCheckpoint (m : Mem) : Mem := { m with pending := [] }.persistToc
+  if v.setsPayloadEnd then m1.compactFrames else { m1.compactFrames with payloadEnd := m1.payloadEnd }
 
 /-- `vacuum()` -/
 def Mem.vacuumV (v : VacVariant) (m : Mem) (ftCommit ftRebuild : Nat) : Mem × Out :=
   if (m.commit ftCommit).2.isAck then
     let r := ((m.commit ftCommit).1.compactFramesV v).rebuildIndexes [] [] ftRebuild
-    let r1 := if v.persistsSketch then r.persistSketch else r
-    (if v.checkpoints then r1.walCheckpoint else r1, .ok)
+    let r1 := if v.persistsSketch then r.persistSketch.bumpFooter ftRebuild else r
+    (if v.checkpoints then r1.checkpoint else r1, .ok)
   else m.commit ftCommit
 
 /-- doctor, first stage: the file is opened (WAL replay) and optionally vacuumed -/
@@ -68,7 +57,7 @@ def Mem.doctorStage1V (v : VacVariant) (m : Mem) (vac : Bool) (ftDrop ftA ftB : 
 
 /-- `Memvid::doctor(path, opts)` (see `Mem.doctor` in Core.lean) with the variant's vacuum -/
 def Mem.doctorV (v : VacVariant) (m : Mem) (vac rt rl rv : Bool) (ftDrop ftA ftB ftOpen : Nat) : Mem × Out :=
-  ((((m.doctorStage1V v vac ftDrop ftA ftB).doctorStage2 (rt || rl || rv) rv ftB).dropHandle ftB).openFrom ftOpen, .ok)
+  (((((m.doctorStage1V v vac ftDrop ftA ftB).doctorStage2 (rt || rl || rv) rv ftB).resetWal).dropHandle ftB).openFrom ftOpen, .ok)
 
 def stepV (v : VacVariant) (m : Mem) : Op → Mem × Out
   | .vacuum a b => m.vacuumV v a b
